@@ -60,12 +60,21 @@ async fn process(ledger: Arc<Ledger>, slot: u32, beh: Item, paused: bool) -> Res
         Item::Sync | Item::Ready => {}
         Item::Yields(y) => tk::yields(y as u32).await,
         Item::Sleeps(ms) => if paused { tokio::time::sleep(Duration::from_millis(ms as u64)).await } else { tokio::time::sleep(Duration::from_micros(200 * ms as u64)).await },
-        Item::Fails => { g.complete(); return Err(Box::new(ItemError(slot))) }
+        // a failing event is fully processed once the executor has run (and awaited) its error callback: state 4 = "failed, error callback not completed yet"
+        Item::Fails => { g.complete(); ledger.state.lock().unwrap()[slot as usize] = 4; return Err(Box::new(ItemError(slot))) }
     }
     g.complete();
     Ok(slot)
 }
 fn process_sync(ledger: &Arc<Ledger>, slot: u32) { let g = Guard::start(ledger, slot); g.complete() }
+/// the error callback handed to the executors: takes a moment (two trips through the scheduler), then marks the failed event as fully processed
+async fn on_err(ledger: Arc<Ledger>, e: Box<dyn std::error::Error + Send + Sync>) {
+    tk::yields(2).await;
+    if let Some(ie) = e.downcast_ref::<ItemError>() { let mut st = ledger.state.lock().unwrap(); if (ie.0 as usize) < st.len() && st[ie.0 as usize] == 4 { st[ie.0 as usize] = 2 } }
+}
+fn on_err_sync(ledger: &Arc<Ledger>, e: Box<dyn std::error::Error + Send + Sync>) {
+    if let Some(ie) = e.downcast_ref::<ItemError>() { let mut st = ledger.state.lock().unwrap(); if (ie.0 as usize) < st.len() && st[ie.0 as usize] == 4 { st[ie.0 as usize] = 2 } }
+}
 
 /// slot in the ledger of (listener l, event e)
 fn slot(l: usize, e: u64, n_events: usize) -> u32 { (l * n_events + e as usize) as u32 }
@@ -83,9 +92,9 @@ where C: FullDuplexUniChannel<ItemType = Tok, DerivedItemType = D> + Send + Sync
     let fto = if cfg.with_timeout { Duration::from_secs(10) } else { Duration::ZERO };
     let (l1, it1) = (ledger.clone(), items.clone());
     let uni = match cfg.exec {
-        Exec::FuturesFallible => uni.spawn_executors(cfg.limit, fto, move |s| { let (l, it) = (l1.clone(), it1.clone()); s.map(move |d: D| { let e = d.ev(); process(l.clone(), slot(0, e, ne), it[e as usize], paused) }) }, |_e| async {}, on_close),
+        Exec::FuturesFallible => uni.spawn_executors(cfg.limit, fto, move |s| { let (l, it) = (l1.clone(), it1.clone()); s.map(move |d: D| { let e = d.ev(); process(l.clone(), slot(0, e, ne), it[e as usize], paused) }) }, { let l = ledger.clone(); move |e| on_err(l.clone(), e) }, on_close),
         Exec::Futures => uni.spawn_futures_executors(cfg.limit, fto, move |s| { let (l, it) = (l1.clone(), it1.clone()); s.map(move |d: D| { let e = d.ev(); let f = process(l.clone(), slot(0, e, ne), it[e as usize], paused); async move { f.await.unwrap_or(u32::MAX) } }) }, on_close),
-        Exec::Fallibles => uni.spawn_fallibles_executors(cfg.limit, move |s| { let (l, it) = (l1.clone(), it1.clone()); s.map(move |d: D| -> Result<u32, Box<dyn std::error::Error + Send + Sync>> { let e = d.ev(); process_sync(&l, slot(0, e, ne)); if it[e as usize] == Item::Fails { Err(Box::new(ItemError(e as u32))) } else { Ok(e as u32) } }) }, |_e| {}, on_close),
+        Exec::Fallibles => uni.spawn_fallibles_executors(cfg.limit, move |s| { let (l, it) = (l1.clone(), it1.clone()); s.map(move |d: D| -> Result<u32, Box<dyn std::error::Error + Send + Sync>> { let e = d.ev(); process_sync(&l, slot(0, e, ne)); if it[e as usize] == Item::Fails { l.state.lock().unwrap()[slot(0, e, ne) as usize] = 4; Err(Box::new(ItemError(slot(0, e, ne)))) } else { Ok(e as u32) } }) }, { let l = ledger.clone(); move |e| on_err_sync(&l, e) }, on_close),
         Exec::Plain => uni.spawn_non_futures_non_fallibles_executors(cfg.limit, move |s| { let l = l1.clone(); s.map(move |d: D| { let e = d.ev(); process_sync(&l, slot(0, e, ne)); e as u32 }) }, on_close),
     };
     let mut accepted = 0u32;
@@ -133,7 +142,7 @@ where C: FullDuplexMultiChannel<ItemType = Tok, DerivedItemType = D> + Send + Sy
         let on_close = move |_s| { let cc = cc.clone(); async move { cc.fetch_add(1, SeqCst); } };
         let (lg, it) = (ledger.clone(), items.clone());
         let r = match cfg.exec {
-            Exec::FuturesFallible | Exec::Futures | Exec::Fallibles => multi.spawn_executor(cfg.limit, fto, format!("listener {l}"), move |s| s.map(move |d: D| { let e = d.ev(); process(lg.clone(), slot(l, e, ne), it[e as usize], paused) }), |_e| async {}, on_close).await,
+            Exec::FuturesFallible | Exec::Futures | Exec::Fallibles => multi.spawn_executor(cfg.limit, fto, format!("listener {l}"), move |s| s.map(move |d: D| { let e = d.ev(); process(lg.clone(), slot(l, e, ne), it[e as usize], paused) }), { let lg2 = ledger.clone(); move |e| on_err(lg2.clone(), e) }, on_close).await,
             Exec::Plain => multi.spawn_non_futures_non_fallible_executor(cfg.limit, format!("listener {l}"), move |s| s.map(move |d: D| { let e = d.ev(); process_sync(&lg, slot(l, e, ne)); e as u32 }), on_close).await,
         };
         r.expect("spawn executor");
@@ -265,8 +274,12 @@ fn judge(args: &Args, acc: &mut Acc, seed: u64, verbose: bool, cfg: &Cfg, snap: 
     let mut problems: Vec<(String, String)> = Vec::new();
     if !s.unfinished.is_empty() {
         let never_started = s.unfinished.iter().filter(|u| u.2 == 0).count(); let running = s.unfinished.iter().filter(|u| u.2 == 1).count();
+        let err_pending = s.unfinished.iter().filter(|u| u.2 == 4).count();
+        if err_pending > 0 { problems.push(("close_returned_before_the_error_callback_of_a_failed_event_completed".into(), format!("close(unbounded) returned {} while the error callback of {} failed event(s) had not completed (the executor awaits it as part of processing the event): (listener, event, state) {:?}", s.close_answer, err_pending, s.unfinished.iter().filter(|u| u.2 == 4).take(6).collect::<Vec<_>>()))) }
+        if never_started + running > 0 {
         problems.push((if running > 0 { "close_returned_with_items_in_flight" } else { "close_returned_before_items_were_started" }.into(),
             format!("close(unbounded) returned {} while {} accepted event(s) were not fully processed ({} still inside their pipeline future, {} not even started): (listener, event, state) {:?}", s.close_answer, s.unfinished.len(), running, never_started, &s.unfinished[..s.unfinished.len().min(8)])));
+        }
     }
     if s.running != 0 { problems.push(("streams_still_running".into(), format!("after close() returned running_streams_count() is {}", s.running))) }
     if s.open { problems.push(("channel_still_open".into(), "after close() returned is_channel_open() is still true".into())) }
